@@ -14,10 +14,12 @@
 //   - pairs() iterates deterministically in Table.Keys order.
 //   - `#t` is the index of the last non-nil slot of the array part (a valid border; equals Lua for hole-free tables).
 //
-// This file holds the data model, lexer, parser and evaluator; lualite_lib.go holds the built-in library.
+// Layout of this file: data model, conversions, lexer, AST, parser, evaluator, built-in library.
 package lualite
 
 import (
+	"crypto/sha1"
+	"encoding/hex"
 	"fmt"
 	"math"
 	"sort"
@@ -980,8 +982,6 @@ func (p *parser) funcBody(name string, method bool) *funcExpr {
 }
 
 func (p *parser) primaryExpr() expr {
-	p.enter()
-	defer p.leave()
 	var e expr
 	t := p.peek()
 	switch {
@@ -1167,8 +1167,9 @@ func Compile(script string) (c *Chunk, err error) {
 
 type cell struct{ v Value }
 
-// scope is one lexical block instance. Every declaration creates a fresh cell, so closures capture variables (not
-// values) and each loop iteration gets its own variables.
+// scope holds the variables of one declaration (a local statement, the parameters of a call, a loop iteration).
+// Scopes form a chain; a closure captures the chain as it was when the closure was created, so it shares variables
+// (not values) with its environment and each loop iteration gets fresh variables.
 type scope struct {
 	vars   map[string]*cell
 	parent *scope
@@ -1323,22 +1324,40 @@ func (in *interp) callValue(fn Value, args []Value, line int) []Value {
 }
 
 func (in *interp) execBlock(body []stmt, sc *scope, fr *frame) (ctl, []Value) {
+	c, vals, _ := in.runBlock(body, sc, fr)
+	return c, vals
+}
+
+// runBlock executes the statements of a block. Every local declaration opens a new scope for the statements that
+// follow it, so that closures created earlier never see locals declared later (lexical scoping). The scope in
+// effect at the end of the block is returned for repeat-until, whose condition sees the body's locals.
+func (in *interp) runBlock(body []stmt, sc *scope, fr *frame) (ctl, []Value, *scope) {
 	for _, s := range body {
-		if c, vals := in.exec(s, sc, fr); c != ctlNone {
-			return c, vals
+		switch s := s.(type) {
+		case *localStmt:
+			in.step()
+			vals := in.evalList(s.exprs, sc, fr, len(s.names))
+			sc = &scope{parent: sc}
+			for i, name := range s.names {
+				sc.declare(name, vals[i])
+			}
+		case *localFuncStmt:
+			in.step()
+			sc = &scope{parent: sc}
+			sc.declare(s.name, nil) // declared first so that the body can refer to itself
+			sc.vars[s.name].v = &Function{name: s.name, proto: s.proto, env: sc, id: idCounter.Add(1)}
+		default:
+			if c, vals := in.exec(s, sc, fr); c != ctlNone {
+				return c, vals, sc
+			}
 		}
 	}
-	return ctlNone, nil
+	return ctlNone, nil, sc
 }
 
 func (in *interp) exec(s stmt, sc *scope, fr *frame) (ctl, []Value) {
 	in.step()
 	switch s := s.(type) {
-	case *localStmt:
-		vals := in.evalList(s.exprs, sc, fr, len(s.names))
-		for i, name := range s.names {
-			sc.declare(name, vals[i])
-		}
 	case *assignStmt:
 		in.execAssign(s, sc, fr)
 	case *callStmt:
@@ -1365,8 +1384,8 @@ func (in *interp) exec(s stmt, sc *scope, fr *frame) (ctl, []Value) {
 		}
 	case *repeatStmt:
 		for {
-			inner := &scope{parent: sc}
-			if c, vals := in.execBlock(s.body, inner, fr); c == ctlBreak {
+			c, vals, inner := in.runBlock(s.body, &scope{parent: sc}, fr)
+			if c == ctlBreak {
 				break
 			} else if c != ctlNone {
 				return c, vals
@@ -1380,9 +1399,6 @@ func (in *interp) exec(s stmt, sc *scope, fr *frame) (ctl, []Value) {
 		return in.execNumFor(s, sc, fr)
 	case *genForStmt:
 		return in.execGenFor(s, sc, fr)
-	case *localFuncStmt:
-		sc.declare(s.name, nil) // declared first so that the body can refer to itself
-		sc.vars[s.name].v = &Function{name: s.name, proto: s.proto, env: sc, id: idCounter.Add(1)}
 	case *returnStmt:
 		if len(s.exprs) == 1 {
 			if call, ok := s.exprs[0].(*callExpr); ok {
@@ -1636,7 +1652,7 @@ func (in *interp) setIndex(obj, key, v Value, line int) {
 	if f, ok := key.(float64); ok && f != f {
 		in.throw(line, "table index is NaN")
 	}
-	typeName(key)
+	typeName(key) // both calls reject Go values that are not Lua values
 	typeName(v)
 	t.Set(key, v)
 }
@@ -1751,4 +1767,721 @@ func (in *interp) lessEq(l, r Value, line int) bool {
 	}
 	in.compareError(l, r, line)
 	return false
+}
+
+// ---------------------------------------------------------------------------------------------------------------
+// Built-in library: base functions, table, math, string and the redis API table.
+//
+// All library tables are created once and shared by every Run; this is safe because scripts cannot modify them
+// (Table.lib marks them read-only) and builtins keep their state in the *interp they receive.
+
+type native = func(in *interp, args []Value) []Value
+
+var (
+	baseGlobals map[string]Value // copied into the global table of every Run
+	stringLib   *Table
+)
+
+// unsupportedGlobals are names of standard Lua / Redis globals that lualite does not provide. Reading one of them
+// is a harness gap rather than the "nonexistent global variable" script error.
+var unsupportedGlobals = map[string]bool{"_G": true, "_VERSION": true, "setmetatable": true, "getmetatable": true,
+	"rawget": true, "rawset": true, "rawequal": true, "loadstring": true, "load": true, "dofile": true,
+	"loadfile": true, "require": true, "module": true, "package": true, "print": true, "collectgarbage": true,
+	"gcinfo": true, "newproxy": true, "xpcall": true, "setfenv": true, "getfenv": true, "coroutine": true,
+	"os": true, "io": true, "debug": true, "cjson": true, "cmsgpack": true, "bit": true, "struct": true}
+
+func newFunc(name string, f native) *Function {
+	return &Function{name: name, native: f, id: idCounter.Add(1)}
+}
+
+func newLib(name string, fns map[string]native, consts map[string]Value) *Table {
+	t := NewTable()
+	for k, f := range fns {
+		t.Set(k, newFunc(name+"."+k, f))
+	}
+	for k, v := range consts {
+		t.Set(k, v)
+	}
+	t.lib = name
+	return t
+}
+
+func init() {
+	stringLib = newLib("string", map[string]native{"len": strLen, "sub": strSub, "rep": strRep, "format": strFormat,
+		"lower": strLower, "upper": strUpper, "byte": strByte, "char": strChar, "find": strFind,
+		"reverse": strReverse}, nil)
+	tableLib := newLib("table", map[string]native{"insert": tblInsert, "remove": tblRemove, "concat": tblConcat,
+		"unpack": baseUnpack}, nil)
+	mathLib := newLib("math", map[string]native{"floor": math1("floor", math.Floor), "ceil": math1("ceil", math.Ceil),
+		"abs": math1("abs", math.Abs), "sqrt": math1("sqrt", math.Sqrt), "max": mathMax, "min": mathMin,
+		"pow": func(in *interp, a []Value) []Value {
+			return one(math.Pow(in.argNumber(a, 0, "pow"), in.argNumber(a, 1, "pow")))
+		},
+		"fmod": func(in *interp, a []Value) []Value {
+			return one(math.Mod(in.argNumber(a, 0, "fmod"), in.argNumber(a, 1, "fmod")))
+		},
+	}, map[string]Value{"huge": math.Inf(1), "pi": math.Pi})
+	redisLib := newLib("redis", map[string]native{
+		"call":         func(in *interp, a []Value) []Value { return redisCall(in, a, false) },
+		"pcall":        func(in *interp, a []Value) []Value { return redisCall(in, a, true) },
+		"error_reply":  func(in *interp, a []Value) []Value { return one(replyTable(in, a, "err", "error_reply")) },
+		"status_reply": func(in *interp, a []Value) []Value { return one(replyTable(in, a, "ok", "status_reply")) },
+		"log":          func(in *interp, a []Value) []Value { return nil },
+		"setresp":      redisSetresp,
+		"sha1hex":      redisSha1hex,
+	}, map[string]Value{"LOG_DEBUG": 0.0, "LOG_VERBOSE": 1.0, "LOG_NOTICE": 2.0, "LOG_WARNING": 3.0})
+
+	baseGlobals = map[string]Value{"string": stringLib, "table": tableLib, "math": mathLib, "redis": redisLib}
+	for name, f := range map[string]native{"tonumber": baseTonumber, "tostring": baseTostring, "type": baseType,
+		"unpack": baseUnpack, "select": baseSelect, "ipairs": baseIpairs, "pairs": basePairs, "next": baseNext,
+		"error": baseError, "pcall": basePcall, "assert": baseAssert} {
+		baseGlobals[name] = newFunc(name, f)
+	}
+}
+
+func one(v Value) []Value { return []Value{v} }
+
+// ---------------------------------------------------------------------------------------------------------------
+// Argument checking (luaL_check*)
+
+func (in *interp) argError(i int, fname, msg string) {
+	in.throw(in.line, "bad argument #%d to '%s' (%s)", i+1, fname, msg)
+}
+
+func argTypeName(args []Value, i int) string {
+	if i >= len(args) {
+		return "no value"
+	}
+	return typeName(args[i])
+}
+
+func (in *interp) argAny(args []Value, i int, fname string) Value {
+	if i >= len(args) {
+		in.argError(i, fname, "value expected")
+	}
+	return args[i]
+}
+
+func (in *interp) argNumber(args []Value, i int, fname string) float64 {
+	if i < len(args) {
+		if n, ok := toNumber(args[i]); ok {
+			return n
+		}
+	}
+	in.argError(i, fname, "number expected, got "+argTypeName(args, i))
+	return 0
+}
+
+// argInt converts like a C cast (truncation); values a script cannot reasonably mean are rejected as unsupported.
+func (in *interp) argInt(args []Value, i int, fname string) int {
+	f := in.argNumber(args, i, fname)
+	if f != f || math.Abs(f) > 1<<53 {
+		unsupported("integer argument %v to %s", f, fname)
+	}
+	return int(f)
+}
+
+func (in *interp) optInt(args []Value, i int, fname string, def int) int {
+	if i >= len(args) || args[i] == nil {
+		return def
+	}
+	return in.argInt(args, i, fname)
+}
+
+func (in *interp) argString(args []Value, i int, fname string) string {
+	if i < len(args) {
+		if s, ok := toStringCoerce(args[i]); ok {
+			return s
+		}
+	}
+	in.argError(i, fname, "string expected, got "+argTypeName(args, i))
+	return ""
+}
+
+func (in *interp) argTable(args []Value, i int, fname string) *Table {
+	if i < len(args) {
+		if t, ok := args[i].(*Table); ok {
+			return t
+		}
+	}
+	in.argError(i, fname, "table expected, got "+argTypeName(args, i))
+	return nil
+}
+
+// ---------------------------------------------------------------------------------------------------------------
+// Base functions
+
+func baseTonumber(in *interp, args []Value) []Value {
+	v := in.argAny(args, 0, "tonumber")
+	base := in.optInt(args, 1, "tonumber", 10)
+	if base == 10 {
+		if n, ok := toNumber(v); ok {
+			return one(n)
+		}
+		return one(nil)
+	}
+	if base < 2 || base > 36 {
+		in.argError(1, "tonumber", "base out of range")
+	}
+	s := strings.TrimFunc(in.argString(args, 0, "tonumber"), func(r rune) bool { return r < 0x80 && isSpace(byte(r)) })
+	if strings.HasPrefix(s, "-") {
+		unsupported("tonumber of negative %q with base %d", s, base)
+	}
+	s = strings.TrimPrefix(s, "+")
+	if base == 16 && len(s) > 2 && s[0] == '0' && s[1]|0x20 == 'x' {
+		s = s[2:]
+	}
+	u, err := strconv.ParseUint(s, base, 64)
+	if err != nil || strings.Contains(s, "_") {
+		return one(nil)
+	}
+	return one(float64(u))
+}
+
+func tostringValue(v Value) string {
+	switch x := v.(type) {
+	case nil:
+		return "nil"
+	case bool:
+		return strconv.FormatBool(x)
+	case float64:
+		return fmtNumber(x)
+	case string:
+		return x
+	}
+	unsupported("tostring of a %s (the result would be address dependent)", typeName(v))
+	return ""
+}
+
+func baseTostring(in *interp, args []Value) []Value {
+	return one(tostringValue(in.argAny(args, 0, "tostring")))
+}
+
+func baseType(in *interp, args []Value) []Value { return one(typeName(in.argAny(args, 0, "type"))) }
+
+func baseUnpack(in *interp, args []Value) []Value {
+	t := in.argTable(args, 0, "unpack")
+	i := in.optInt(args, 1, "unpack", 1)
+	j := in.optInt(args, 2, "unpack", t.Len())
+	if i > j {
+		return nil
+	}
+	if j-i+1 >= 8000 { // LUAI_MAXCSTACK
+		in.throw(in.line, "too many results to unpack")
+	}
+	out := make([]Value, 0, j-i+1)
+	for ; i <= j; i++ {
+		out = append(out, t.Get(float64(i)))
+	}
+	return out
+}
+
+func baseSelect(in *interp, args []Value) []Value {
+	if len(args) > 0 && args[0] == "#" {
+		return one(float64(len(args) - 1))
+	}
+	n := in.argInt(args, 0, "select")
+	rest := args[1:]
+	if n < 0 {
+		n = len(rest) + n + 1
+	}
+	if n < 1 {
+		in.argError(0, "select", "index out of range")
+	}
+	if n > len(rest) {
+		return nil
+	}
+	return rest[n-1:]
+}
+
+var ipairsIter = newFunc("ipairs_iterator", func(in *interp, args []Value) []Value {
+	t := in.argTable(args, 0, "ipairs_iterator")
+	i := float64(in.argInt(args, 1, "ipairs_iterator") + 1)
+	if v := t.Get(i); v != nil {
+		return []Value{i, v}
+	}
+	return one(nil)
+})
+
+func baseIpairs(in *interp, args []Value) []Value {
+	return []Value{ipairsIter, in.argTable(args, 0, "ipairs"), 0.0}
+}
+
+// basePairs iterates over a snapshot of Table.Keys (deterministic order); keys removed during the traversal are
+// skipped, keys added during the traversal are not visited (Lua leaves that case undefined).
+func basePairs(in *interp, args []Value) []Value {
+	t := in.argTable(args, 0, "pairs")
+	keys, pos := t.Keys(), 0
+	iter := newFunc("pairs_iterator", func(in *interp, _ []Value) []Value {
+		for pos < len(keys) {
+			k := keys[pos]
+			pos++
+			if v := t.Get(k); v != nil {
+				return []Value{k, v}
+			}
+		}
+		return one(nil)
+	})
+	return []Value{iter, t, nil}
+}
+
+func baseNext(in *interp, args []Value) []Value {
+	t := in.argTable(args, 0, "next")
+	keys := t.Keys()
+	start := 0
+	if len(args) > 1 && args[1] != nil {
+		start = -1
+		for i, k := range keys {
+			if k == args[1] {
+				start = i + 1
+				break
+			}
+		}
+		if start < 0 {
+			in.throw(in.line, "invalid key to 'next'")
+		}
+	}
+	if start < len(keys) {
+		return []Value{keys[start], t.Get(keys[start])}
+	}
+	return one(nil)
+}
+
+func baseError(in *interp, args []Value) []Value {
+	var v Value
+	if len(args) > 0 {
+		v = args[0]
+	}
+	level := in.optInt(args, 1, "error", 1)
+	if s, ok := v.(string); ok {
+		switch level {
+		case 0:
+		case 1:
+			v = fmt.Sprintf("%s:%d: %s", chunkName, in.line, s)
+		default:
+			unsupported("error() with level %d", level)
+		}
+	}
+	panic(&luaError{val: v})
+}
+
+func basePcall(in *interp, args []Value) (rets []Value) {
+	fn := in.argAny(args, 0, "pcall")
+	depth, line := in.depth, in.line
+	defer func() {
+		if r := recover(); r != nil {
+			e, ok := r.(*luaError)
+			if !ok {
+				panic(r) // step budget and unsupported constructs are not catchable by the script
+			}
+			in.depth, in.tailFn, in.tailArgs = depth, nil, nil
+			rets = []Value{false, e.val}
+		}
+	}()
+	return append([]Value{true}, in.callValue(fn, args[1:], line)...)
+}
+
+func baseAssert(in *interp, args []Value) []Value {
+	if !truthy(in.argAny(args, 0, "assert")) {
+		if len(args) > 1 {
+			panic(&luaError{val: args[1]})
+		}
+		panic(&luaError{val: "assertion failed!"})
+	}
+	return args
+}
+
+// ---------------------------------------------------------------------------------------------------------------
+// table
+
+func tblInsert(in *interp, args []Value) []Value {
+	t := in.argTable(args, 0, "insert")
+	n := t.Len()
+	switch len(args) {
+	case 2:
+		in.setIndex(t, float64(n+1), args[1], in.line)
+	case 3:
+		pos := in.argInt(args, 1, "insert")
+		e := n + 1
+		if pos > e {
+			e = pos
+		}
+		for i := e; i > pos; i-- {
+			in.step()
+			t.Set(float64(i), t.Get(float64(i-1)))
+		}
+		in.setIndex(t, float64(pos), args[2], in.line)
+	default:
+		in.throw(in.line, "wrong number of arguments to 'insert'")
+	}
+	return nil
+}
+
+func tblRemove(in *interp, args []Value) []Value {
+	t := in.argTable(args, 0, "remove")
+	n := t.Len()
+	pos := in.optInt(args, 1, "remove", n)
+	if pos < 1 || pos > n {
+		return nil
+	}
+	if t.lib != "" {
+		in.throw(in.line, "Attempt to modify a readonly table")
+	}
+	v := t.Get(float64(pos))
+	for i := pos; i < n; i++ {
+		in.step()
+		t.Set(float64(i), t.Get(float64(i+1)))
+	}
+	t.Set(float64(n), nil)
+	return one(v)
+}
+
+func tblConcat(in *interp, args []Value) []Value {
+	t := in.argTable(args, 0, "concat")
+	sep := ""
+	if len(args) > 1 && args[1] != nil {
+		sep = in.argString(args, 1, "concat")
+	}
+	i := in.optInt(args, 2, "concat", 1)
+	j := in.optInt(args, 3, "concat", t.Len())
+	var b strings.Builder
+	for k := i; k <= j; k++ {
+		in.step()
+		s, ok := toStringCoerce(t.Get(float64(k)))
+		if !ok {
+			in.throw(in.line, "invalid value (at index %d) in table for 'concat'", k)
+		}
+		b.WriteString(s)
+		if k < j {
+			b.WriteString(sep)
+		}
+	}
+	return one(b.String())
+}
+
+// ---------------------------------------------------------------------------------------------------------------
+// math
+
+func math1(name string, f func(float64) float64) native {
+	return func(in *interp, args []Value) []Value { return one(f(in.argNumber(args, 0, name))) }
+}
+
+func mathMax(in *interp, args []Value) []Value {
+	m := in.argNumber(args, 0, "max")
+	for i := 1; i < len(args); i++ {
+		if v := in.argNumber(args, i, "max"); v > m {
+			m = v
+		}
+	}
+	return one(m)
+}
+
+func mathMin(in *interp, args []Value) []Value {
+	m := in.argNumber(args, 0, "min")
+	for i := 1; i < len(args); i++ {
+		if v := in.argNumber(args, i, "min"); v < m {
+			m = v
+		}
+	}
+	return one(m)
+}
+
+// ---------------------------------------------------------------------------------------------------------------
+// string
+
+// posRelat converts a possibly negative string position to an absolute one (lstrlib.c posrelat).
+func posRelat(pos, length int) int {
+	if pos < 0 {
+		pos += length + 1
+	}
+	if pos < 0 {
+		return 0
+	}
+	return pos
+}
+
+func strLen(in *interp, args []Value) []Value { return one(float64(len(in.argString(args, 0, "len")))) }
+
+func strSub(in *interp, args []Value) []Value {
+	s := in.argString(args, 0, "sub")
+	start := posRelat(in.argInt(args, 1, "sub"), len(s))
+	end := posRelat(in.optInt(args, 2, "sub", -1), len(s))
+	if start < 1 {
+		start = 1
+	}
+	if end > len(s) {
+		end = len(s)
+	}
+	if start > end {
+		return one("")
+	}
+	return one(s[start-1 : end])
+}
+
+func strRep(in *interp, args []Value) []Value {
+	s := in.argString(args, 0, "rep")
+	n := in.argInt(args, 1, "rep")
+	if n <= 0 || s == "" {
+		return one("")
+	}
+	if n > (64<<20)/len(s) {
+		unsupported("string.rep result larger than 64 MiB")
+	}
+	return one(strings.Repeat(s, n))
+}
+
+func mapASCII(s string, from, to byte, delta int) string {
+	b := []byte(s)
+	for i, c := range b {
+		if c >= from && c <= to {
+			b[i] = byte(int(c) + delta)
+		}
+	}
+	return string(b)
+}
+
+func strLower(in *interp, args []Value) []Value {
+	return one(mapASCII(in.argString(args, 0, "lower"), 'A', 'Z', 32))
+}
+
+func strUpper(in *interp, args []Value) []Value {
+	return one(mapASCII(in.argString(args, 0, "upper"), 'a', 'z', -32))
+}
+
+func strReverse(in *interp, args []Value) []Value {
+	b := []byte(in.argString(args, 0, "reverse"))
+	for i, j := 0, len(b)-1; i < j; i, j = i+1, j-1 {
+		b[i], b[j] = b[j], b[i]
+	}
+	return one(string(b))
+}
+
+func strByte(in *interp, args []Value) []Value {
+	s := in.argString(args, 0, "byte")
+	i := posRelat(in.optInt(args, 1, "byte", 1), len(s))
+	j := posRelat(in.optInt(args, 2, "byte", i), len(s))
+	if i < 1 {
+		i = 1
+	}
+	if j > len(s) {
+		j = len(s)
+	}
+	var out []Value
+	for ; i <= j; i++ {
+		out = append(out, float64(s[i-1]))
+	}
+	return out
+}
+
+func strChar(in *interp, args []Value) []Value {
+	b := make([]byte, len(args))
+	for i := range args {
+		c := in.argInt(args, i, "char")
+		if c < 0 || c > 255 {
+			in.argError(i, "char", "invalid value")
+		}
+		b[i] = byte(c)
+	}
+	return one(string(b))
+}
+
+// strFind supports plain searches only: either the plain flag is set or the pattern has no magic characters.
+func strFind(in *interp, args []Value) []Value {
+	s := in.argString(args, 0, "find")
+	pat := in.argString(args, 1, "find")
+	init := posRelat(in.optInt(args, 2, "find", 1), len(s)) - 1
+	if init < 0 {
+		init = 0
+	} else if init > len(s) {
+		init = len(s)
+	}
+	if !(len(args) > 3 && truthy(args[3])) && strings.ContainsAny(pat, "^$*+?.([%-") {
+		unsupported("string.find with the Lua pattern %q (only plain searches are implemented)", pat)
+	}
+	idx := strings.Index(s[init:], pat)
+	if idx < 0 {
+		return one(nil)
+	}
+	return []Value{float64(init + idx + 1), float64(init + idx + len(pat))}
+}
+
+// strFormat implements %d %i %u %c %x %X %o %e %E %f %g %G %s %% with flags, width and precision.
+func strFormat(in *interp, args []Value) []Value {
+	f := in.argString(args, 0, "format")
+	var b strings.Builder
+	argi := 0
+	for i := 0; i < len(f); i++ {
+		if f[i] != '%' {
+			b.WriteByte(f[i])
+			continue
+		}
+		if i++; i >= len(f) {
+			in.throw(in.line, "invalid option '%%' to 'format'")
+		}
+		if f[i] == '%' {
+			b.WriteByte('%')
+			continue
+		}
+		start := i
+		for i < len(f) && strings.IndexByte("-+ #0", f[i]) >= 0 {
+			i++
+		}
+		if i-start > 5 {
+			in.throw(in.line, "invalid format (repeated flags)")
+		}
+		flags := f[start:i]
+		width, prec, hasPrec := 0, 0, false
+		for n := 0; i < len(f) && isDigit(f[i]) && n < 2; n++ {
+			width = width*10 + int(f[i]-'0')
+			i++
+		}
+		if i < len(f) && f[i] == '.' {
+			hasPrec = true
+			i++
+			for n := 0; i < len(f) && isDigit(f[i]) && n < 2; n++ {
+				prec = prec*10 + int(f[i]-'0')
+				i++
+			}
+		}
+		if i >= len(f) || isDigit(f[i]) {
+			in.throw(in.line, "invalid format (width or precision too long)")
+		}
+		spec := "%" + flags
+		if width > 0 {
+			spec += strconv.Itoa(width)
+		}
+		argi++
+		switch conv := f[i]; conv {
+		case 'd', 'i':
+			if hasPrec {
+				spec += "." + strconv.Itoa(prec)
+			}
+			fmt.Fprintf(&b, spec+"d", int64(in.argInt(args, argi, "format")))
+		case 'u', 'x', 'X', 'o':
+			if hasPrec {
+				spec += "." + strconv.Itoa(prec)
+			}
+			if conv == 'u' {
+				conv = 'd'
+			}
+			fmt.Fprintf(&b, spec+string(conv), uint64(int64(in.argInt(args, argi, "format"))))
+		case 'c':
+			b.WriteByte(byte(in.argInt(args, argi, "format")))
+		case 'e', 'E', 'f', 'g', 'G':
+			n := in.argNumber(args, argi, "format")
+			if math.IsInf(n, 0) || n != n {
+				unsupported("string.format of %v", n)
+			}
+			if !hasPrec {
+				prec = 6
+			}
+			fmt.Fprintf(&b, spec+"."+strconv.Itoa(prec)+string(conv), n)
+		case 's':
+			s := in.argString(args, argi, "format")
+			if hasPrec && prec < len(s) {
+				s = s[:prec]
+			}
+			pad := ""
+			if width > len(s) {
+				pad = strings.Repeat(" ", width-len(s))
+			}
+			if strings.Contains(flags, "-") {
+				b.WriteString(s + pad)
+			} else {
+				b.WriteString(pad + s)
+			}
+		case 'q':
+			unsupported("string.format option %%q")
+		default:
+			in.throw(in.line, "invalid option '%%%c' to 'format'", conv)
+		}
+	}
+	return one(b.String())
+}
+
+// ---------------------------------------------------------------------------------------------------------------
+// redis
+
+func errTable(msg string) *Table {
+	t := NewTable()
+	t.Set("err", msg)
+	return t
+}
+
+func replyTable(in *interp, args []Value, field, fname string) Value {
+	if len(args) != 1 {
+		return errTable("wrong number or type of arguments")
+	}
+	s, ok := args[0].(string)
+	if !ok {
+		return errTable("wrong number or type of arguments")
+	}
+	t := NewTable()
+	t.Set(field, s)
+	return t
+}
+
+// checkHostValue makes sure that the host only hands Lua values to the script.
+func checkHostValue(v Value, seen map[*Table]bool) {
+	typeName(v) // unsupported for anything that is not a Lua value
+	if t, ok := v.(*Table); ok && !seen[t] {
+		seen[t] = true
+		for _, k := range t.Keys() {
+			typeName(k)
+			checkHostValue(t.Get(k), seen)
+		}
+	}
+}
+
+// redisCall implements redis.call (raise=true semantics when protected is false) and redis.pcall.
+func redisCall(in *interp, args []Value, protected bool) []Value {
+	var reply Value
+	strs := make([]string, len(args))
+	for i, a := range args {
+		s, ok := ToRedisArg(a)
+		if !ok {
+			reply = errTable("Lua redis lib command arguments must be strings or integers")
+		}
+		strs[i] = s
+	}
+	if len(args) == 0 {
+		reply = errTable("Please specify at least one argument for this redis lib call")
+	}
+	if reply == nil {
+		if in.host == nil {
+			unsupported("redis.call without a Host")
+		}
+		v, err := in.host.Call(strs)
+		if err != nil {
+			reply = errTable(err.Error())
+		} else {
+			checkHostValue(v, map[*Table]bool{})
+			reply = v
+		}
+	}
+	if t, ok := reply.(*Table); ok && !protected {
+		if _, isErr := t.Get("err").(string); isErr {
+			panic(&luaError{val: t}) // Redis 7 raises the error table itself
+		}
+	}
+	return one(reply)
+}
+
+func redisSetresp(in *interp, args []Value) []Value {
+	switch in.argNumber(args, 0, "setresp") {
+	case 2:
+	case 3:
+		unsupported("redis.setresp(3): the host converts replies with RESP2 rules")
+	default:
+		in.throw(in.line, "RESP version must be 2 or 3.")
+	}
+	return nil
+}
+
+func redisSha1hex(in *interp, args []Value) []Value {
+	if len(args) != 1 {
+		in.throw(in.line, "wrong number of arguments")
+	}
+	sum := sha1.Sum([]byte(in.argString(args, 0, "sha1hex")))
+	return one(hex.EncodeToString(sum[:]))
 }
